@@ -17,6 +17,7 @@ statement evaluated on the decoded trajectories vs the real `g` at probe points;
 well-posed affine instances, a real `optimize()` followed by the formula on `extract_results()`.
 """
 import bisect
+import copy
 import math
 import warnings
 from fractions import Fraction
@@ -38,14 +39,16 @@ class Case:
     pass
 
 
-def run_code(inst):
-    """transcribe the instance with the real code; returns a Case (or raises)"""
+def run_code(inst, prob=None):
+    """transcribe the instance with the real code; returns a Case (or raises).  `prob`: an
+    already transcribed problem object built on this (live) instance dict: transcribe it again
+    (the cached residual functions are reused)"""
     import casadi as ca
     from rtctools._internal.casadi_helpers import is_affine
 
     cs = Case()
     cs.inst = inst
-    cs.prob = S.make_problem(inst)
+    cs.prob = prob if prob is not None else S.make_problem(inst)
     _d, _lbx, _ubx, lbg, ubg, _x0, nlp = S.transcribe(cs.prob)
     X, g = nlp["x"], nlp["g"]
     cs.N = X.size1()
@@ -134,6 +137,7 @@ def driver_line(cs, probes):
         idx=[[L["idx"][(m, v)] for v in vs] for m in range(E)],
         didx=[[L["didx"][(m, s)] for s in range(inst["ns"])] for m in range(E)],
         pvals=[[fr(x) for x in inst["pvals"][m]] for m in range(E)],
+        dyn=[(j in (inst.get("dyn") or [])) for j in range(inst["npar"])],
         cmode=[(inst.get("modes") or {}).get("c%d" % j, 0) for j in range(inst["nci"])],
         cin=[[wire_series(inst["cin"][m][j]) for j in range(inst["nci"])] for m in range(E)],
         hist=[[wire_series(hist[m].get(v)) for v in vs] for m in range(E)],
@@ -341,10 +345,10 @@ def slim(inst):
     return inst
 
 
-def prepare(c, inst, rng):
+def prepare(c, inst, rng, prob=None):
     """run the code on the instance, build the driver line; returns (case, line) or None"""
     try:
-        cs = run_code(inst)
+        cs = run_code(inst, prob)
     except Exception as e:  # a valid instance must transcribe
         c.fail("transcribe() raised %s on a valid synthetic instance" % type(e).__name__, slim(inst), repr(e)[:400])
         return None
@@ -371,6 +375,14 @@ def compare(c, cs, out):
     c.hit("steps/%d" % (len(inst["ts"]) - 1))
     if inst.get("own_times"):
         c.hit("own-grid controls")
+        if any(not v.startswith("u") for v in inst["own_times"]):
+            c.hit("own-grid states/algebraics")
+    if getattr(cs, "second", False):
+        c.hit("second transcribe() on the same object (cached functions, dynamic parameters changed)")
+    if inst.get("dyn"):
+        c.hit("dynamic parameters")
+    if inst.get("npv") or inst.get("nev") or inst.get("nxc"):
+        c.hit("path/extra variables or extra inputs present")
     if any(len(set(col)) < len(col) for col in zip(*inst["pvals"])) and inst["E"] > 1:
         c.hit("parameter coincidence between members")
     c.sample({"kind": inst["kind"], "sizes": [inst["ns"], inst["na"], inst["nc"], inst["nci"], inst["npar"]],
@@ -547,6 +559,20 @@ def run_batch(c, insts, rng, solve=False):
         p = prepare(c, inst, rng)
         if p is not None:
             prepared.append(p)
+            if inst.get("again"):
+                # second transcribe() of the same object: cached residual functions are reused;
+                # the values of the parameters declared dynamic have changed in between
+                cs1 = p[0]
+                cs1.inst = copy.deepcopy(inst)
+                for j in inst.get("dyn") or []:
+                    for m in range(inst["E"]):
+                        if m == 0 or rng.random() < 0.7:
+                            inst["pvals"][m][j] = S.dy(rng)
+                q = prepare(c, inst, rng, prob=cs1.prob)
+                if q is not None:
+                    q[0].inst = copy.deepcopy(inst)
+                    q[0].second = True
+                    prepared.append(q)
     outs = c.model([line for _cs, line in prepared]) if prepared else []
     for k, (cs, _line) in enumerate(prepared):
         compare(c, cs, None if outs is None else outs[k])
@@ -575,10 +601,13 @@ def run(c):
     c.prove()
     rng = c.rng
     run_batch(c, [dict(x) for x in CORPUS], rng)
-    n_main = c.n(80, 600)
+    n_main = c.n(70, 600)
     n_own = c.n(16, 100)
     n_solve = c.n(10, 60)
     insts = [S.gen_instance(rng, big=c.big and rng.random() < 0.3) for _ in range(n_main)]
+    for inst in insts:
+        if rng.random() < 0.2:
+            inst["again"] = True
     own = []
     while len(own) < n_own:
         inst = S.gen_instance(rng, kind=rng.choice(["affine", "nonlinear"]))
